@@ -154,6 +154,7 @@ func C14(run *hx.Run) {
 		}
 		run.Sample(hx.M{"page_size": ps, "exhaustive_lengths": d.Profile["exhaustive"] == true, "tables": len(d.Meta.Tables)})
 	})
+	c14LongSchema(run)
 	c14HandBuilt(run)
 	for _, need := range []string{"table-leaf/local", "table-leaf/overflow", "index-leaf/overflow", "index-interior/overflow"} {
 		if run.Seen("cell_class", need) == 0 {
@@ -414,6 +415,73 @@ func c14HandBuilt(run *hx.Run) {
 			}
 			if fileNo%17 == 0 {
 				run.Sample(hx.M{"handbuilt": v.name, "page_size": ps, "cells": len(v.cells), "rows_sqlite": len(want)})
+			}
+		}
+	}
+}
+
+
+// c14LongSchema: sqlite_master records around the local-payload thresholds while
+// the schema still lives on page 1 (whose first 100 bytes are the file header).
+func c14LongSchema(run *hx.Run) {
+	o := mustOracle(run)
+	if o == nil {
+		return
+	}
+	defer o.Close()
+	dir, cleanup := hx.ScratchDir("C14schema")
+	defer cleanup()
+	sizes := []int{512, 1024, 4096}
+	if run.Thorough() {
+		sizes = hx.AllPageSizes
+	}
+	n := 0
+	for _, ps := range sizes {
+		var lens []int
+		for d := -160; d <= 120; d += 9 {
+			lens = append(lens, ps+d)
+		}
+		for _, d := range []int{-137, -136, -135, -134, -133, -36, -35, -34, 2 * ps, 3*ps + 17} {
+			lens = append(lens, ps+d)
+		}
+		for _, L := range lens {
+			if L < 40 {
+				continue
+			}
+			n++
+			path := filepath.Join(dir, fmt.Sprintf("ls%d.sqlite", n))
+			colname := "c" + strings.Repeat("n", L-24)
+			ddl := fmt.Sprintf("CREATE TABLE ls(%s, b)", hx.QuoteIdent(colname))
+			if err := o.Exec(path, fmt.Sprintf("PRAGMA page_size=%d", ps), ddl, "INSERT INTO ls VALUES(1,'one'),(2,'two'),(NULL, x'00ff')"); err != nil {
+				run.Count("long_schema_rejected_by_sqlite", 1)
+				continue
+			}
+			want, err := o.Query(path, "SELECT rowid, * FROM ls ORDER BY rowid")
+			if err != nil {
+				continue
+			}
+			db, err := sqlittle.Open(path)
+			if err != nil {
+				run.Violation("C14/long-schema/open", fmt.Sprintf("page size %d, CREATE text of %d bytes: Open: %v", ps, len(ddl), err), nil)
+				continue
+			}
+			got, err, pm := collectSelect(db, "ls", []string{"rowid", colname, "b"})
+			db.Close()
+			os.Remove(path)
+			run.Eval(1)
+			run.Distinct(fmt.Sprintf("ls/%d/%d", ps, L))
+			key := "C14/long-schema"
+			switch {
+			case pm != "":
+				run.Violation(key+"/"+pmKind(pm), pm, nil)
+			case err != nil:
+				run.Violation(key+"/error", fmt.Sprintf("page size %d, sqlite_master record with a CREATE text of %d bytes: Select fails: %v (SQLite reads %d rows)", ps, len(ddl), err, len(want)), hx.M{"page_size": ps, "ddl_len": len(ddl)})
+			default:
+				if df := diffRows(want, got); df != "" {
+					run.Violation(key+"/value", fmt.Sprintf("page size %d, CREATE text of %d bytes: %s", ps, len(ddl), df), nil)
+				} else {
+					run.Count("long_schema_databases_equal", 1)
+				}
 			}
 		}
 	}
